@@ -234,8 +234,15 @@ func runC28(r *Run) {
 				results = append(results, result{"Unmarshal" + strings.ToUpper(dc.format) + "(reader)", valueText(v), okText(err)})
 				v, err = ce.UnmarshalCE(mk(), nil, cfg)
 				results = append(results, result{"UnmarshalCE(reader)", valueText(v), okText(err)})
+				// a document with local references does not unmarshal to the same untyped value twice even
+				// from memory (Go's map iteration order decides which slot a reference fills: finding
+				// C06/local-reference), so the untyped values are not compared for those; the events always are
+				orderDependent := strings.Contains(refEvs, "ref:")
+				if orderDependent {
+					r.out.Count("value-not-compared:local-reference")
+				}
 				for _, res := range results {
-					if res.val != valueText(refVal) || res.ok != okText(refErr) {
+					if !orderDependent && (res.val != valueText(refVal) || res.ok != okText(refErr)) {
 						r.out.Finding("C28", "unmarshal-differs:"+dc.format+":"+pname, fmt.Sprintf("%s with delivery %s %v gives %s %s, from memory %s %s",
 							res.name, pname, sizes, res.val, res.ok, valueText(refVal), okText(refErr)), fmt.Sprintf("%s sizes=%v eofWithData=%v", text, sizes, eofWithData))
 					}
